@@ -72,8 +72,23 @@ package rendering
 //@   modifies httpOut
 //@ func (*ShutdownRenderer).RenderRuntimeEvent
 //@   modifies nothing
+// C04: the INVOKE event an extension receives is built from the same Invoke record as the runtime's event
+//@ event DeadlineToEpoch = ret metering.MonoToEpoch
+//@ func newAgentInvokeEvent
+//@   requires req != nil
+//@   modifies nothing
+//@   ensures [refused-on-bad-deadline] (r1 == nil) <==> parsesInt(req.DeadlineNs)
+//@   ensures [same-invocation] r1 == nil ==> r0 != nil && fresh(r0) && r0.RequestID == req.ID && r0.InvokedFunctionArn == req.InvokedFunctionArn && r0.AgentEvent != nil && r0.AgentEvent.EventType == "INVOKE"
+//@   ensures [trace-header-value] r1 == nil ==> (len(req.TraceID) == 0 ==> r0.Tracing == nil) && (len(req.TraceID) != 0 ==> r0.Tracing != nil && r0.Tracing.Type == model.XRayTracingType && r0.Tracing.XRayTracing.Value == req.TraceID)
+//@   ensures [deadline-from-the-record] r1 == nil ==> delta(DeadlineToEpoch) == 1 && r0.AgentEvent.DeadlineMs == quo(lastret(DeadlineToEpoch), 1000000)
+//@ event AgentInvokeEventBuilt = ret rapi/rendering.newAgentInvokeEvent
+//@ event AgentInvokeEventFrom = call rapi/rendering.newAgentInvokeEvent
+//@ event JSONMarshalled = call encoding/json.Marshal
 //@ func (*InvokeRenderer).RenderAgentEvent
+//@   requires s.invoke != nil
 //@   modifies httpOut
+//@   ensures [built-from-the-renderer's-invoke-record] delta(AgentInvokeEventFrom) == 1 && lastarg(AgentInvokeEventFrom, 0) == s.invoke
+//@   ensures [that-event-is-what-is-serialised] r0 == nil ==> delta(JSONMarshalled) == 1 && lastarg(JSONMarshalled, 0) == iface(lastret(AgentInvokeEventBuilt))
 //@ func renderInvokeHeaders
 //@   modifies httpOut
 
